@@ -21,11 +21,13 @@ pub struct RunStats {
     pub max_stack: u64,
     /// Instructions dispatched
     pub insns: u64,
+    /// Largest backtrack count of any earlier run since the last reset (the most recent run not included)
+    pub max_backtracks_before: u64,
 }
 
 std::thread_local! {
     static STATS: Cell<RunStats> = Cell::new(RunStats {
-        runs: 0, backtracks: 0, pushes: 0, max_stack: 0, insns: 0,
+        runs: 0, backtracks: 0, pushes: 0, max_stack: 0, insns: 0, max_backtracks_before: 0,
     });
 }
 
@@ -41,9 +43,10 @@ pub fn reset_run_stats() {
 
 pub(crate) fn vh_begin_run() {
     STATS.with(|s| {
-        let runs = s.get().runs;
+        let prev = s.get();
         s.set(RunStats {
-            runs: runs + 1,
+            runs: prev.runs + 1,
+            max_backtracks_before: prev.max_backtracks_before.max(prev.backtracks),
             ..RunStats::default()
         })
     });
